@@ -547,11 +547,11 @@ Section Plain.
           (destruct call; [apply quiet_xerr|apply IHw; exact Hp]).
       + destruct cur; try apply quiet_xerr.
         * apply quiet_bind_ev; [apply IHe; exact Hp|]. intros sv Hsv. cbv beta iota.
-          apply quiet_bind; intros si.
+          destruct (vv sv) as [|?|si|?|?|?|?|?]; try apply quiet_okv.
           destruct (index_val (VStr s) si) as [[]|]; try apply quiet_okv;
             (destruct call; [apply quiet_xerr|apply IHw; exact Hp]).
         * apply quiet_bind_ev; [apply IHe; exact Hp|]. intros sv Hsv. cbv beta iota.
-          apply quiet_bind; intros si.
+          destruct (vv sv) as [|?|si|?|?|?|?|?]; try apply quiet_okv.
           destruct (index_val (VList l) si) as [[]|]; try apply quiet_okv;
             (destruct call; [apply quiet_xerr|apply IHw; exact Hp]).
         * apply quiet_bind_ev; [apply IHe; exact Hp|]. intros sv Hsv. cbv beta iota.
